@@ -13,6 +13,8 @@ chain item     {"v": "win", "f": "shift"|"rown", "a": name, "pb": [name], "ar": 
                {"v": "alias"}
                {"v": "summarize", "a": name, "by": [name]}
                {"v": "filter", "a": name, "c": int}
+               {"v": "case", "a": name, "c": int, "pos": "mutate"|"filter"|"arrange", "two": bool}   (no `otherwise`)
+               {"v": "hidden_label", "a": name, "o": name, "n": 1|2}   (hidden column + successor + column named like the sub-query label)
                {"v": "arrange", "a": name, "desc": bool, "nulls": None|"first"|"last"}
                {"v": "slice", "n": int, "off": int}
                {"v": "join_right", "l": table id, "ln": name, "rn": name, "how": str}
@@ -68,6 +70,30 @@ class CqProbeMixin:
             return t >> pdt.mutate(**{W_NAME: e})
         if v == "mutate":
             return t >> pdt.mutate(**{item.get("name", "e__"): C[item["a"]] + item["k"]})
+        if v == "hidden_label":
+            a, lab = item["a"], f"{item['a']}_{item['n']}"
+            t1 = t >> pdt.rename({item["o"]: lab})
+            u = t1 >> pdt.mutate(**{a: t1[a] + 1})
+            return (
+                u
+                >> pdt.mutate(**{W_NAME: pdt.row_number(arrange=[t1[a]])})
+                >> pdt.alias(keep_col_refs=True)
+                >> pdt.filter(C[W_NAME] < 3)
+                >> pdt.mutate(cs__=t1[a] + u[a] + t1[lab])
+            )
+        if v == "case":
+            a = C[item["a"]]
+            if item["pos"] == "filter":
+                e = pdt.when(a > item["c"]).then(True)
+                if item.get("two"):
+                    e = e.when(a < -item["c"]).then(False)
+                return t >> pdt.filter(e)
+            e = pdt.when(a > item["c"]).then(a)
+            if item.get("two"):
+                e = e.when(a < -item["c"]).then(0)
+            if item["pos"] == "arrange":
+                return t >> pdt.arrange(e)
+            return t >> pdt.mutate(cs__=e)
         if v == "select":
             return t >> pdt.select(*[C[n] for n in item["cols"]])
         if v == "alias":
